@@ -257,6 +257,39 @@ func genC01(g *G) {
 			}
 		}
 	}
+	// the whole range of S with the cofactored equation holding: for a small-order key A, [8][k]A = 0, so R = [S mod L]B
+	// (plus any torsion) satisfies the equation for every S; the verdict must depend on S < L alone. Covers the
+	// top window [2^252, L), every pattern of the three top bits, and S = L + small.
+	two := big.NewInt(2)
+	p252 := new(big.Int).Exp(two, big.NewInt(252), nil)
+	var svals []*big.Int
+	for _, d := range []int64{-2, -1, 0, 1, 2} {
+		svals = append(svals, new(big.Int).Add(p252, big.NewInt(d)), new(big.Int).Add(edL, big.NewInt(d)))
+	}
+	wnd := new(big.Int).Sub(edL, p252)
+	for i := 0; i < 6; i++ {
+		svals = append(svals, new(big.Int).Add(p252, g.bigBelow(wnd)), g.bigBelow(p252))
+	}
+	for _, e := range []uint{253, 254, 255} {
+		hi := new(big.Int).Lsh(big.NewInt(1), e)
+		svals = append(svals, hi, new(big.Int).Add(hi, g.bigBelow(p252)), new(big.Int).Sub(hi, big.NewInt(1)))
+	}
+	svals = append(svals, new(big.Int).Sub(new(big.Int).Lsh(big.NewInt(1), 256), big.NewInt(1)), big.NewInt(0), big.NewInt(1))
+	for ai, a := range smallOrder {
+		if !g.thorough && ai%3 != 0 {
+			continue
+		}
+		pk, _ := hex.DecodeString(a)
+		for si, sv := range svals {
+			if sv.Sign() < 0 || sv.BitLen() > 256 {
+				continue
+			}
+			sc, _ := edwards25519.NewScalar().SetUniformBytes(append(bigLE32(new(big.Int).Mod(sv, edL)), make([]byte, 32)...))
+			R := new(edwards25519.Point).ScalarBaseMult(sc)
+			R.Add(R, tors[(ai+si)%8])
+			emit(pk, g.r.bytes(g.r.intn(8)), append(R.Bytes(), bigLE32(sv)...))
+		}
+	}
 	// honest key, small-order / non-canonical R and vice versa
 	for _, e := range smallOrder {
 		seed := g.r.bytes(32)
@@ -300,6 +333,35 @@ func genC07(g *G) {
 		}
 		g.emit("ed.signer", hx(priv), hx(g.r.bytes(64)), "7") // crypto.SHA512: pre-hashed input refused
 		g.emit("ed.signer", hx(priv), hx(g.r.bytes(32)), "5")
+	}
+	// long messages: buffer-size boundaries far beyond one hash block (thorough: EVERY length 0..2304)
+	{
+		priv := ed25519.NewKeyFromSeed(g.r.bytes(32))
+		var lens []int
+		if g.thorough {
+			for l := 0; l <= 2304; l++ {
+				lens = append(lens, l)
+			}
+		}
+		for _, c := range []int{112, 128, 240, 256, 512, 1024, 2048, 4096, 8192} {
+			for _, d := range []int{-65, -64, -63, -33, -32, -31, -17, -1, 0, 1} {
+				if !g.thorough && g.r.intn(3) != 0 {
+					continue
+				}
+				lens = append(lens, c+d)
+			}
+		}
+		for i := 0; i < 12; i++ {
+			lens = append(lens, g.r.intn(9000))
+		}
+		for _, l := range lens {
+			m := g.r.bytes(l)
+			g.emit("ed.sign", hx(priv), hx(m))
+			if l%7 == 0 || !g.thorough {
+				g.emit("ed.verify", hx(priv[32:]), hx(m), hx(ed25519.Sign(priv, m)))
+				g.emit("ed.signer", hx(priv), hx(m), "0")
+			}
+		}
 	}
 	for _, l := range []int{0, 31, 33, 64} {
 		g.emit("ed.keygen", hx(g.r.bytes(l))) // bad seed length panics
